@@ -44,8 +44,10 @@ def selectorOf (kind : String) : Bytes :=
 /-- every modelled filter body; each `Filters/*.lean` file contributes its `impls` list here -/
 def allFilterImpls : List (Bytes × FilterImpl) := stdFilterImpls
 
+/-- a value result, with the entries of every map in the codec's canonical order (the harness reads the
+    entries of a result map out of a Go map and sorts them: `Reify`, `sortKVs`) -/
 def showValRes : Res Cause GoVal → String
-  | .ok v => "ok " ++ v.enc
+  | .ok v => "ok " ++ MapOrder.canonEnc v
   | .err c => "err " ++ c.kind
   | .panic _ => "panic"
   | .unmodelled w => "unmodelled " ++ w
@@ -221,7 +223,7 @@ def runNumfCase (x : String) (steps : List String) : String :=
     match runPipeline (lookupImpl allFilterImpls) (viaValue v) steps with
     | .ok r =>
       match writeObject r with
-      | .ok t => "ok " ++ r.enc ++ " " ++ hexField t
+      | .ok t => "ok " ++ MapOrder.canonEnc r ++ " " ++ hexField t
       | .err c => "err " ++ c.kind
       | .panic _ => "panic"
       | .unmodelled w => "unmodelled " ++ w
